@@ -243,6 +243,33 @@ def j_c18_setch(inp):
     return [] if out == exp else ["set_channel changed something other than the channel"]
 
 
+# ---- the same judges on a piece that holds the same Message objects several times (repeated plain concatenate)
+def _shared_piece(inp):
+    ops_ = inp[0]
+    k = next(i for i, o in enumerate(ops_) if o[0] == "OConcatShare")
+    store, _ = ops._exec(ops_[:k + 1], return_store=True)
+    return store[inp[1]], ops_[k + 1]
+
+
+def _on_shared(judge, kind, mkinp):
+    def j(inp):
+        piece, follow = _shared_piece(inp)
+        if follow[0] != kind:
+            return None
+        ms = rel_of(piece)
+        ops.PREBUILT[:] = [piece]
+        try:
+            return judge(mkinp(ms, follow))
+        finally:
+            ops.PREBUILT[:] = []
+    return j
+
+
+J.setdefault("C07", []).append(("concat_repeat", _on_shared(j_c07, "ONormalise", lambda ms, f: ms)))
+J.setdefault("C18", []).append(("concat_repeat", _on_shared(j_c18_pad, "OPad", lambda ms, f: (ms, f[2]))))
+J.setdefault("C18", []).append(("concat_repeat", _on_shared(j_c18_setch, "OSetChannel", lambda ms, f: (ms, f[2]))))
+
+
 # ---- C08
 @judge_for("C08", "split")
 def j_c08(inp):
@@ -292,10 +319,14 @@ def j_c10(inp):
         return None
     s = mk_rel(ms)
     cap = num * 96 // den
-    # what a second look at the normalised input says: signatures that survive normalisation
-    n = mk_rel(ms)
-    n.normalise()
-    tss = [(m[8], m[9]) for m in rel_of(n) if m[0] == "TIME_SIGNATURE"]
+    # signatures that survive normalisation, computed independently: a signature is dropped only when it repeats the
+    # previous one literally (same numerator and same denominator)
+    tss, cur = [], None
+    for m in ms:
+        if m[0] == "TIME_SIGNATURE":
+            if (m[8], m[9]) != cur:
+                tss.append((m[8], m[9]))
+            cur = (m[8], m[9])
     try:
         b = Bar(s, num, den)
     except BarException:
@@ -483,6 +514,8 @@ def _c16_check(store, step, op, memo):
         touched = {op[1]}
     if op[0] == "OEquals":
         touched = {op[1], op[2]}
+    if op[0] == "OScaleDown":
+        touched = {op[1]}
     if op[0] in ("ONew", "ONewAbs", "ONewRel"):
         touched = set()
     if op[0] in ("OConcat", "OMerge"):
@@ -510,6 +543,43 @@ def _c16_check(store, step, op, memo):
 
 
 J.setdefault("C16", []).append(("history", _history_hook(_c16_check)))
+
+
+# non-integral tick values (scale(1/k, quantise_afterwards=False) on odd waits) are outside the Coq model (integers with a
+# float tag); copies and split pieces of such sequences are judged on the implementation alone
+def _gen_scaled_copy(r):
+    ms = G.gen_rel_wf(r, n=r.randint(1, 4), pitches=[60, 61, 62], hi=40, extra=False, sigs=False)
+    return ms, r.choice([2, 2, 4]), r.choice([[5], [7, 6], [3, 3, 3], [11]])
+
+
+ops.Op("scaled_copy", _gen_scaled_copy, lambda inp: "", None)
+
+
+def _exact(s):
+    return ([(m.message_type.name, m.channel, m.time, m.note, m.velocity) for m in s.rel._messages],
+            [(m.message_type.name, m.channel, m.time, m.note, m.velocity) for m in s.abs._messages])
+
+
+@judge_for("C16", "scaled_copy")
+def j_c16_scaled(inp):
+    ms, k, caps = inp
+    s = mk_rel(ms)
+    try:
+        s.scale(1 / k, quantise_afterwards=False)
+    except Exception:
+        return None
+    before = _exact(s)
+    c = s.copy()
+    v = []
+    if _exact(c) != before:
+        v.append(f"the copy {_exact(c)[0]} differs from its original {before[0]}")
+    total = sum(m[2] for m in before[0] if m[0] == "WAIT")
+    ps = s.split(list(caps))
+    if sum(m.time for p in ps for m in p.rel._messages if m.message_type == MT.WAIT) != total:
+        v.append(f"the split pieces last {sum(m.time for p in ps for m in p.rel._messages if m.message_type == MT.WAIT)} ticks in total, the original {total}")
+    if _exact(s) != before:
+        v.append("split changed its source")
+    return v
 
 
 def _comp_content(c):
@@ -667,6 +737,9 @@ def j_c06(inp):
             if dne and o[3] > n[3]:
                 v.append("note extended although extension is disabled")
     return v
+
+
+J.setdefault("C08", []).append(("concat_repeat", _on_shared(j_c08, "OSplit", lambda ms, f: (ms, f[2]))))
 
 
 # ---- C09
@@ -832,6 +905,20 @@ def j_c15(inp):
     strip = lambda l: sorted((c, p, on, dd) for c, p, on, dd, _ in (roll(l) or []))
     if strip(out) != strip(abs_of(ps[0])):
         v.append("notes depend on the order of merging")
+    # note segmentation: when notes of one channel and pitch coming from different inputs never overlap (they may
+    # abut), the merged notes are exactly the union of the inputs' notes (onset and duration of every note kept)
+    rolls = [roll(ms) or [] for ms in seqs]
+    clash = False
+    for i in range(len(rolls)):
+        for j in range(i + 1, len(rolls)):
+            for (c1, p1, on1, d1, _) in rolls[i]:
+                for (c2, p2, on2, d2, _) in rolls[j]:
+                    if (c1, p1) == (c2, p2) and on1 < on2 + d2 and on2 < on1 + d1:
+                        clash = True
+    if not clash:
+        exp_notes = sorted((c, p, on, dd) for rl in rolls for c, p, on, dd, _ in rl)
+        if strip(out) != exp_notes:
+            v.append(f"merged notes {strip(out)} are not the union of the inputs' notes {exp_notes}")
     # signatures: every signature event that does not repeat the one in force (in tick order over all inputs) is kept
     for kind in ("TIME_SIGNATURE", "KEY_SIGNATURE"):
         exp = sig_in_force(allm, kind)
@@ -917,7 +1004,7 @@ def j_c12(rels):
 # ---- C13
 @judge_for("C13", "midi_load")
 def j_c13(inp):
-    tpb, tracks, groups, metas, mi = inp
+    tpb, tracks, groups, metas, mi = inp[:5]
     ntr = len(tracks)
     flat = [i for g in groups for i in g]
     if not groups or any(not g for g in groups) or len(set(flat)) != len(flat) or any(i >= ntr for i in flat) \
@@ -926,9 +1013,7 @@ def j_c13(inp):
     if any(e[0] == "ks" and e[4] not in MusicMapping.KeyKeyMapping for t in tracks for e in t):
         return None
     path = os.path.join(ops.TMP, f"p{os.getpid()}.mid")
-    ops.write_midi(tpb, tracks, path)
-    seqs = Sequence.sequences_load(path, track_indices=[list(g) for g in groups], meta_track_indices=list(metas),
-                                   target_meta_track_index=mi)
+    seqs = ops.midi_load(inp, path)
     v = []
     if len(seqs) != len(groups):
         return ["wrong number of sequences"]
@@ -1371,7 +1456,7 @@ def run(prop, seed, tier, extra_inputs=(), boost=1, kf=None):
         n = ORACLE_N[tier] * boost
         if opname in ("vocab",):
             n = max(20, n // 10)
-        if opname in ("tok_stream", "history", "tok_stateful", "scale_down"):
+        if opname in ("tok_stream", "history", "tok_stateful", "scale_down", "concat_repeat"):
             n = max(50, n // 2)
         inputs = [i for o, i in extra_inputs if o == opname] + [op.gen(rng) for _ in range(n)]
         new_here, known_here = 0, 0
